@@ -1563,6 +1563,9 @@ class Comparator(BinaryOperator):
         self._eval_parent_ = parent
 
         if self._id_ in sources:
+            # the truth value is the one that was bound for these bindings, not whatever flag another evaluation of the
+            # same node (another position of the query, another query) left on the node since
+            self._is_false_ = not bool(sources[self._id_])
             yield OperationResult(sources, self._is_false_, self)
             return
 
